@@ -4,6 +4,7 @@ A project is described by a small abstract record (sources, libraries, executabl
 aliases, tests, options) from which (a) the build.bfg text and source tree are written and (b) the expectations the
 checks compare against (declared argument strings per step, declared dependency DAG) are derived."""
 import os
+import random
 import re
 from . import gen, shtools
 
@@ -49,7 +50,7 @@ class Project:
         return t
 
 
-def generate(rng, rep=None, odd_names=False, n_exe=2, n_lib=1, with_commands=True, with_tests=True):
+def generate(rng, rep=None, odd_names=False, n_exe=2, n_lib=1, with_commands=True, with_tests=True, with_yacc=True):
     """Returns a Project. Options are raw strings beginning with -D so that gcc-like tools accept any content."""
     p = Project()
     L = p.lines
@@ -98,6 +99,25 @@ def generate(rng, rep=None, odd_names=False, n_exe=2, n_lib=1, with_commands=Tru
         copts = ['-DE%d=%s' % (i, adversarial_arg(rng, rep)) for _ in range(rng.randint(0, 3))]
         lopts = ['-Wl,--defsym=e%d=%d' % (i, i)] if rng.random() < 0.5 else []
         use = [l for l in libs if rng.random() < 0.6]
+        gensrcs = ''
+        if with_yacc and i == 0:
+            # sources in a language that is TRANSLATED to C first (yacc; harness/stubs/yacc stands in for bison): a step with
+            # two outputs - translation unit and header, which the Make backend routes through a stamp file - and a step with
+            # one named output, each with options of its own; the program compiles and links what they produce
+            yrng = random.Random(rng.random())
+            yd = odd_name(yrng, 'yd', odd_names)
+            y2 = '%s/%s.y' % (yd, odd_name(yrng, 'gram', odd_names))
+            y1 = odd_name(yrng, 'single', odd_names) + '.y'
+            p.files[y2] = p.files[y1] = '%%\n'
+            y2opts = ['-DY2_%d=%s' % (k, adversarial_arg(yrng, rep)) for k in range(yrng.randint(1, 3))]
+            y1opts = ['-DY1=%s' % adversarial_arg(yrng, rep)] if yrng.random() < 0.7 else []
+            y1out = 'ygen/%s.c' % odd_name(yrng, 'one', odd_names)
+            L.append("gy2 = generated_source(file=%s, options=%s)" % (pyrepr(y2), pyrepr(y2opts)))
+            L.append("gy1 = generated_source(%s, %s, options=%s)" % (pyrepr(y1out), pyrepr(y1), pyrepr(y1opts)))
+            gensrcs = ' + [gy2[0], gy1]'
+            p.steps.append({'kind': 'generate', 'source': y2, 'options': y2opts, 'outputs': [y2[:-2] + '.tab.c', y2[:-2] + '.tab.h'],
+                            'owner': ename})
+            p.steps.append({'kind': 'generate', 'source': y1, 'options': y1opts, 'outputs': [y1out], 'owner': ename})
         pch = ''
         if i == n_exe - 1 and rng.random() < 0.5:
             # a precompiled header: its step and the steps that use it must be the same in every backend (which file is
@@ -105,8 +125,8 @@ def generate(rng, rep=None, odd_names=False, n_exe=2, n_lib=1, with_commands=Tru
             p.files['pch%d.h' % i] = '#define PCH%d 1\n' % i
             L.append("pch%d = precompiled_header(file='pch%d.h')" % (i, i))
             pch = ', pch=pch%d' % i
-        L.append("exe%d = executable(%s, files=%s, compile_options=%s, link_options=%s, libs=[%s]%s)" % (
-            i, pyrepr(ename), pyrepr(srcs), pyrepr(copts), pyrepr(lopts), ', '.join(use), pch))
+        L.append("exe%d = executable(%s, files=%s%s, compile_options=%s, link_options=%s, libs=[%s]%s)" % (
+            i, pyrepr(ename), pyrepr(srcs), gensrcs, pyrepr(copts), pyrepr(lopts), ', '.join(use), pch))
         for s in srcs:
             p.steps.append({'kind': 'compile', 'source': s, 'owner': ename, 'options': copts, 'lib': False})
         p.steps.append({'kind': 'link', 'name': ename, 'sources': srcs, 'options': lopts, 'libs': use})
@@ -174,8 +194,10 @@ def generate_graph(rng, rep=None):
     DAG can be written down next to the script: header FILE objects in includes= (source and generated headers) on
     plain compiles and on a pch given by name, extra_deps= on compile / link / copy_file, libs= on a static library, an
     object file shared by two executables, nested output directories, single- and multi-output build_steps and
-    consumers of their outputs.  Returns a Project whose .graph is a list of steps
-        {'out': primary output, 'outs': [...], 'consumes': [...], 'multi': bool}
+    consumers of their outputs, copies / symbolic links / hard links of GENERATED files (and a link to a link) with
+    consumers of the link, a versioned shared library (real file + soname link + development link) with an executable
+    linking it.  Returns a Project whose .graph is a list of steps
+        {'out': primary output, 'outs': [...], 'consumes': [...], 'multi': bool, 'real_tool': run by cp/ln, not the recorder}
     where a consumed name is 'src:<path below srcdir>' or an output path below builddir."""
     p = Project()
     p.name = 'graph'
@@ -255,20 +277,60 @@ def generate_graph(rng, rep=None):
             kw = ", extra_deps=['data.dep']"
             cons.append(src('data.dep'))
         L.append("cp = copy_file('out/a/copy.txt', 'data.txt'%s)" % kw)
-        G.append({'out': 'out/a/copy.txt', 'outs': ['out/a/copy.txt'], 'consumes': cons, 'multi': False})
+        G.append({'out': 'out/a/copy.txt', 'outs': ['out/a/copy.txt'], 'consumes': cons, 'multi': False, 'real_tool': True, 'mode': 'copy'})
         defaults.append('cp')
+    def link_step(var, out, srcvar, srcout, mode, consumer=True):
+        """copy_file in the given mode (the real cp / ln run, 'real_tool') and, usually, a step that consumes the copy or
+        link: whatever is downstream of a link is downstream of the file behind it"""
+        L.append("%s = copy_file(%r, %s, mode=%r)" % (var, out, srcvar, mode))
+        G.append({'out': out, 'outs': [out], 'consumes': [srcout], 'multi': False, 'real_tool': True, 'mode': mode})
+        defaults.append(var)
+        if consumer:
+            uout = 'use/%s.out' % var
+            if coin():
+                L.append("use_%s = build_step(%r, cmd=[%r, '-o', %r, 'use', %s])" % (var, uout, rec, uout, var))
+            else:
+                L.append("use_%s = build_step(%r, cmd=[%r, '-o', %r, 'use'], files=[%s])" % (var, uout, rec, uout, var))
+            G.append({'out': uout, 'outs': [uout], 'consumes': [out], 'multi': False})
+            defaults.append('use_' + var)
+
     if multi:
         # consumers of single outputs of the multi-output step
         for j in sorted(rng.sample(range(len(multi)), rng.randint(1, len(multi)))):
             out = 'use/m%d.out' % j
             if coin():
-                L.append("u%d = copy_file(%r, bs[%d])" % (j, out, j))
-            else:
-                L.append("u%d = build_step(%r, cmd=[%r, '-o', %r, 'use', bs[%d]])" % (j, out, rec, out, j))
+                link_step('u%d' % j, out, 'bs[%d]' % j, multi[j], rng.choice(['copy', 'copy', 'symlink', 'hardlink']), consumer=coin(0.4))
+                continue
+            L.append("u%d = build_step(%r, cmd=[%r, '-o', %r, 'use', bs[%d]])" % (j, out, rec, out, j))
             G.append({'out': out, 'outs': [out], 'consumes': [multi[j]], 'multi': False})
             defaults.append('u%d' % j)
         if coin(0.4):
             defaults.append('*bs')
+    # links to GENERATED files in every mode, in the directory of the file and in other (nested) directories, a link to a
+    # link, and consumers of each; a symbolic link is always among them
+    lk = rng.choice(['gen/lk/data.txt', 'lkdata.txt'])
+    L.append("lk = build_step(%r, cmd=[%r, '-o', %r, 'lk'], files=['lk.in'])" % (lk, rec, lk))
+    G.append({'out': lk, 'outs': [lk], 'consumes': [src('lk.in')], 'multi': False})
+    ln_s = rng.choice(['links/data.lnk', 'gen/lk/data.lnk', 'links/deep/er/data.lnk'])
+    link_step('ln_s', ln_s, 'lk', lk, 'symlink')
+    for mode in rng.sample(['hardlink', 'copy', 'symlink'], rng.randint(0, 2)):
+        link_step('ln_' + mode[0] + '2', 'links2/data.' + mode, 'lk', lk, mode, consumer=coin(0.7))
+    if coin():
+        link_step('ln_ss', 'links/chain.lnk', 'ln_s', ln_s, 'symlink')
+    # a versioned shared library (real file, soname link, development link: bfg creates the two links as symlink-mode
+    # copies) and an executable that links it
+    if coin(0.8):
+        v_o = compile_step('v_o', 'obj/v.o', 'vlib/v.c')
+        ver = rng.choice([('1.2.3', '1'), ('2.0', '2'), ('0.9.10', '0.9')])
+        L.append("lv = shared_library('lib/v', files=[v_o], version=%r, soversion=%r)" % ver)
+        real, soname, dev = 'lib/libv.so.' + ver[0], 'lib/libv.so.' + ver[1], 'lib/libv.so'
+        G.append({'out': real, 'outs': [real], 'consumes': [v_o], 'multi': False})
+        G.append({'out': soname, 'outs': [soname], 'consumes': [real], 'multi': False, 'real_tool': True, 'mode': 'symlink'})
+        G.append({'out': dev, 'outs': [dev], 'consumes': [soname], 'multi': False, 'real_tool': True, 'mode': 'symlink'})
+        e3_o = compile_step('e3_o', 'obj/e3x.o', 'e3x.c')
+        L.append("e3 = executable('bin/e3x', files=[e3_o], libs=[lv])")
+        G.append({'out': 'bin/e3x', 'outs': ['bin/e3x'], 'consumes': [e3_o, dev], 'multi': False})
+        defaults.append('e3')
     L.append("default(%s)" % ', '.join(defaults))
     return p
 
